@@ -4,6 +4,7 @@ import Skglm.Model.ProxNewton
 import Skglm.Model.Cox
 import Skglm.Model.MultiTask
 import Skglm.Model.GramCD
+import Skglm.Model.ProxNewtonDir
 /-
   Driver operations for the block coordinate-descent moves (GroupBCD), the prox-Newton backtracking
   line search and the Cox sweeps.
@@ -125,6 +126,10 @@ def solverOps (op : String) : Option (P String) :=
       let ⟨n, p, P⟩ ← pProb; let s ← pState n p; let d ← pDir n p; let fuel ← pNat
       pure (fmtState (P.backtrack fuel s d) ++ " " ++ fmtE (P.lineSearchTest s d 1) ++ " " ++
             fmtB (P.lineSearchAccept s d 1))
+  | "pn_direction" => some do   -- `_descent_direction`: dw (all features), db, X_delta_w, lipschitz (all features)
+      let ⟨n, p, P⟩ ← pProb; let s ← pState n p; let ws ← pWs p; let k ← pNat
+      let d := P.descentDirection s ws k
+      pure (fmtVec d.dw ++ " " ++ fmt d.db ++ " " ++ fmtVec d.Xd ++ " " ++ fmtVec (P.descentLips s))
   | "pn_grad" => some do
       let ⟨n, p, P⟩ ← pProb; let s ← pState n p
       pure (fmtVec (P.pnGrad s.Xw))
